@@ -35,9 +35,12 @@ def base_inputs(rnd, n):
         if len(h) == 3 and len(ins) == 2 and ins[0]["t"] == ins[1]["t"] and h[2]["cls"] == "out" and h[2]["t"] > ins[0]["t"]:
             burst.append([dict(x, us=(200000 * (p + 1)) % 1000000) for p, x in enumerate(h)])
     stats[-1]["histories_with_lots_in_one_second"] = len(burst)
+    feey = [h for h in res[2] if sum(x["cls"] == "in" and x["fee"] > 0 for x in h) >= 2]
     groups = []
     for i in range(n):
-        if i % 4 == 3 and burst:
+        if i % 8 == 4 and feey:
+            groups.append({"B1": rnd.choice(feey), "B2": rnd.choice(feey), "B3": rnd.choice(feey)})      # several acquisitions with a crypto fee in one run
+        elif i % 4 == 3 and burst:
             groups.append({"B1": rnd.choice(burst), "B2": rnd.choice(burst), "B3": rnd.choice(res[1])})
         elif i % 4 == 1 and twins:
             a, b = rnd.sample(rnd.choice(twins), 2)
@@ -66,7 +69,8 @@ def run(tier):
         base = {"kind": "cli", "country": country, "args": {"method": method, "lang": "en" if country == "jp" else None, "from": None, "to": None, "neg": False},
                 "assets": assets, "conc": {"U": "0.5", "P": "10", "sheet": {}}, "sched": None, "mode": "fork", "observe": ["computed"]}
         variants = [("base", True, base), ("repeat", True, copy.deepcopy(base))]
-        for seed in ([1, 12345] if q else [1, 2, 3, 12345, 4294967295]):
+        # (seeds 2, 3 and 7 iterate the set {"B1", "B2", "B3"} in three different orders, all different from seed 0 under which the base run is made)
+        for seed in ([2, 3, 7] if q else [1, 2, 3, 7, 12345, 4294967295]):
             v = copy.deepcopy(base)
             v.update(mode="exec", hashseed=seed)
             variants.append(("hashseed", True, v))
@@ -101,7 +105,13 @@ def run(tier):
 
     def proj(res):
         r = res["res"]
-        return {"exit": r["exit"], "computed": r.get("computed") or {}, "digests": {f: v["digest"] for f, v in sorted(r.get("odsinfo", {}).items())}}
+        # per asset: digest of its own sheets of the full report ("<asset> In-Out", "<asset> Tax")
+        own = {}
+        for f, v in r.get("odsinfo", {}).items():
+            if f.endswith("_rp2_full_report.ods"):
+                for a in (r.get("computed") or {}):
+                    own[a] = "|".join(d for n, d in sorted(v.get("sheets", {}).items()) if n.startswith(a + " ") or n.endswith(" " + a) or f"_{a} " in n or n.startswith(f"__test_{a} "))
+        return {"exit": r["exit"], "computed": r.get("computed") or {}, "digests": {f: v["digest"] for f, v in sorted(r.get("odsinfo", {}).items())}, "own_sheets": own}
 
     traces = []
     for gi in range(len(groups)):
